@@ -95,6 +95,7 @@ pub fn run(p: &Params, rep: &mut Report) {
         let mut h = History::new(milestone, rng.chance(1, 2));
         let mut cfg = GenCfg::default();
         cfg.hostile_ids = rng.chance(1, 4);
+        cfg.keydata_in_complex = rng.chance(1, 3);
         let mut g = Gen::new(cfg);
         let nops = rng.range(5, maxops) as usize;
         for _ in 0..nops {
@@ -115,8 +116,11 @@ pub fn run(p: &Params, rep: &mut Report) {
                 // other monitors own acceptance/refusal questions (C02, C04, C10, C14); the history ends here
                 rep.count(&format!("history-ended/{}", r.agreement.class()));
                 // ...but the store must still be consistent with the model (unchanged by a refused/panicking op)
-                if let Agreement::RealErrModelOk(_) | Agreement::Panic(_) = r.agreement {
-                    // state after a failed mutation is C14's business; not judged here
+                if let Agreement::Panic(pn) = &r.agreement {
+                    // a request the model accepts must not bring the library down
+                    if matches!(r.pred, Pred::Ok(_)) {
+                        rep.violation(format!("C01/panic/{}/{}", op.kind(), pn.class().chars().take(90).collect::<String>()), json!({"panic": pn.msg, "at": pn.loc, "target": target_desc(&op), "history": h.replay_json()}));
+                    }
                 }
                 break;
             }
